@@ -40,6 +40,8 @@ pub struct JCase {
   pub unstable_text: bool,
   pub unstable_bytes: bool,
   pub notes: Vec<String>,
+  /// fill_from_lockfile package specifiers: ("@scope/name@req", "version")
+  pub seed: Vec<(String, String)>,
 }
 
 #[derive(Clone, Debug)]
@@ -57,11 +59,12 @@ pub struct JGenCfg {
   pub dirty_cache: bool,   // the file cache may hold other bytes or faults
   pub manifest_faults: usize, // percent of manifest entries that are tampered / unsupported / missing (plus faults/2)
   pub asset_imports: usize,   // percent of relative imports written as text / bytes imports (outside the model)
+  pub seeds: usize,           // percent of worlds whose graph is first filled from a lockfile (package specifiers)
 }
 
 impl Default for JGenCfg {
   fn default() -> Self {
-    JGenCfg { faults: 12, locker: 40, prefer_cached: 30, stale_meta: 15, modinfo: 60, dynamic: 20, https_imports: 15, weird_exports: 10, partial_info: 12, stale_info: 15, dirty_cache: true, manifest_faults: 4, asset_imports: 0 }
+    JGenCfg { faults: 12, locker: 40, prefer_cached: 30, stale_meta: 15, modinfo: 60, dynamic: 20, https_imports: 15, weird_exports: 10, partial_info: 12, stale_info: 15, dirty_cache: true, manifest_faults: 4, asset_imports: 0, seeds: 12 }
   }
 }
 
@@ -437,6 +440,21 @@ pub fn gen_jcase(rng: &mut Rng, cfg: &JGenCfg) -> JCase {
       }
     }
   }
+  // lockfile-seeded selections (drawn last: the rest of the world does not depend on them)
+  if rng.chance(cfg.seeds) {
+    for _ in 0..rng.range(1, 3) {
+      let pkg = *rng.pick(&pkgs);
+      let listed = pkg_versions.get(pkg);
+      let req = gen_req(rng, listed);
+      let ver = match rng.below(100) {
+        x if x < 55 => listed.filter(|l| !l.is_empty()).map(|l| rng.pick(l).0.clone()).unwrap_or_else(|| "1.0.0".to_string()),
+        x if x < 85 => rng.pick(VERSIONS).to_string(),
+        _ => rng.pick(&["1.0.2", "1.1.5", "0.9.9", "2.0.1"]).to_string(),
+      };
+      c.notes.push(format!("lockfile selects {}{} -> {}", pkg, req, ver));
+      c.seed.push((format!("{}{}", pkg, req), ver));
+    }
+  }
   c
 }
 
@@ -658,6 +676,12 @@ pub fn abs_jworld(c: &JCase, graph_specs: &BTreeSet<String>) -> JAbs {
         _ => {}
       }
     }
+    // every version the lockfile selects
+    for (r, v) in &c.seed {
+      if let (Ok(req), Ok(ver)) = (PackageReq::from_str(r), Version::parse_standard(v)) {
+        vdocs.entry((req.name.to_string(), ver.clone())).or_insert_with(|| doc_of(world, &format!("{}{}/{}_meta.json", REGISTRY, req.name, ver), false));
+      }
+    }
     // every version a package document lists
     for (pkg, (a, b)) in &pdocs {
       for d in [a, b] {
@@ -727,6 +751,11 @@ pub fn abs_jworld(c: &JCase, graph_specs: &BTreeSet<String>) -> JAbs {
   for k in c.lock_pkg.iter().flat_map(|m| m.keys()) {
     if let Ok(nv) = PackageNv::from_str(k) {
       versions_set.insert(nv.version);
+    }
+  }
+  for (_, v) in &c.seed {
+    if let Ok(v) = Version::parse_standard(v) {
+      versions_set.insert(v);
     }
   }
   let versions: BTreeMap<Version, u64> = versions_set.into_iter().enumerate().map(|(i, v)| (v, i as u64 + 1)).collect();
@@ -844,6 +873,14 @@ pub fn abs_jworld(c: &JCase, graph_specs: &BTreeSet<String>) -> JAbs {
     let cached = matches!(world.only_entries.get(&url), Some(Entry::Module { .. }));
     vers_sx.push(Sx::L(vec![Sx::A(a.pkg(pkg)), Sx::A(a.ver(v)), Sx::A(a.it.spec(&url)), Sx::A(a.it.spec(&base)), vm, Sx::b(cached)]));
   }
+  let mut seed_sx = vec![];
+  for (r, v) in &c.seed {
+    if let (Ok(req), Ok(ver)) = (PackageReq::from_str(r), Version::parse_standard(v)) {
+      let rid = a.req(&req);
+      reqs.insert(rid, req.clone());
+      seed_sx.push(Sx::atoms([rid, a.pkg(&req.name), a.ver(&ver)]));
+    }
+  }
   let mut match_sx = vec![];
   for (_, req) in &reqs {
     let vs: Vec<u64> = a.versions.iter().filter(|(v, _)| req.version_req.matches(v)).map(|(_, id)| *id).collect();
@@ -875,6 +912,7 @@ pub fn abs_jworld(c: &JCase, graph_specs: &BTreeSet<String>) -> JAbs {
     http,
     Sx::A(missing),
     Sx::A(c.max_redirects as u64),
+    Sx::L(seed_sx),
   ]);
   a
 }
@@ -898,8 +936,44 @@ pub fn new_locker(c: &JCase) -> Option<LogLocker> {
   })
 }
 
+/// The reproduction of F-C06b as a registry case: the lockfile selects @s/a@1 -> 1.0.0, the registry
+/// also has 1.1.0, and an import no listed version satisfies makes the builder restart.
+pub fn lockseed_case() -> JCase {
+  let mut c = JCase { max_redirects: 10, ..Default::default() };
+  let mut put = |url: &str, text: &str| {
+    c.world.entries.insert(url.to_string(), raw_entry(text.as_bytes().to_vec()));
+  };
+  put("file:///main.ts", "import 'jsr:@s/a@1';import 'jsr:@s/b@2';");
+  put("https://jsr.io/@s/a/meta.json", r#"{"versions":{"1.0.0":{},"1.1.0":{}}}"#);
+  put("https://jsr.io/@s/a/1.0.0_meta.json", r#"{"exports":{".":"./mod.ts"},"manifest":{}}"#);
+  put("https://jsr.io/@s/a/1.1.0_meta.json", r#"{"exports":{".":"./mod.ts"},"manifest":{}}"#);
+  put("https://jsr.io/@s/a/1.0.0/mod.ts", "export const v = '1.0.0';");
+  put("https://jsr.io/@s/a/1.1.0/mod.ts", "export const v = '1.1.0';");
+  put("https://jsr.io/@s/b/meta.json", r#"{"versions":{"1.0.0":{}}}"#);
+  c.roots = vec!["file:///main.ts".to_string()];
+  c.seed = vec![("@s/a@1".to_string(), "1.0.0".to_string())];
+  c
+}
+
+/// ModuleGraph::fill_from_lockfile with the case's package specifiers
+pub fn fill_seeds(graph: &mut ModuleGraph, c: &JCase) {
+  if c.seed.is_empty() {
+    return;
+  }
+  let deps: Vec<(deno_semver::jsr::JsrDepPackageReq, String)> = c
+    .seed
+    .iter()
+    .filter_map(|(r, v)| Some((deno_semver::jsr::JsrDepPackageReq::jsr(PackageReq::from_str(r).ok()?), v.clone())))
+    .collect();
+  graph.fill_from_lockfile(deno_graph::FillFromLockfileOptions {
+    redirects: std::iter::empty(),
+    package_specifiers: deps.iter().map(|(d, v)| (d, v.as_str())),
+  });
+}
+
 pub fn real_jbuild_with(c: &JCase, loader: &dyn Loader, locker: &mut Option<LogLocker>) -> ModuleGraph {
   let mut graph = ModuleGraph::new(GraphKind::All);
+  fill_seeds(&mut graph, c);
   let roots: Vec<ModuleSpecifier> = c.roots.iter().map(|r| ModuleSpecifier::parse(r).unwrap()).collect();
   let exec = InlineExecutor;
   let options = BuildOptions {
